@@ -82,17 +82,25 @@ def choose_patterns(vars_, body):
         if not any(_contains(t, m) for m in minimal):
             minimal.append(t)
     pats = list(minimal[:4])
-    if not pats:
-        # cover all variables with a multi-pattern of small terms
+    if len(allv) > 1:
+        # also: cover all variables with a multi-pattern of the smallest single-variable terms
         cover, have = [], frozenset()
         for t, vs in cands:
-            if not vs <= have:
+            if len(vs) == 1 and not vs <= have:
                 cover.append(t)
                 have |= vs
             if have == allv:
                 break
-        if have == allv:
-            pats = [z3.MultiPattern(*cover)]
+        if have != allv:
+            cover, have = [], frozenset()
+            for t, vs in cands:
+                if vs != allv and not vs <= have:
+                    cover.append(t)
+                    have |= vs
+                if have == allv:
+                    break
+        if have == allv and len(cover) > 1:
+            pats.append(z3.MultiPattern(*cover))
     return pats or None
 
 
@@ -319,11 +327,13 @@ class CallMixin:
         saved = st.bound
         st.bound = dict(saved)
         self.bind_target(gen.target, SV(e, arr[_ix(i, off)]), st, bound=True)
+        st.qdepth += 1
         try:
             conds = [self.truthy(self.ev(c, st, spec), st) for c in gen.ifs]
             body = self.truthy(self.ev(node.elt, st, spec), st)
         finally:
             st.bound = saved
+            st.qdepth -= 1
         rng = z3.And(0 <= i, i < ln, *conds)
         if is_all:
             return mk_bool(z3.ForAll([i], z3.Implies(rng, body)))
@@ -341,10 +351,12 @@ class CallMixin:
         elems = [SV(s[0], s[1][_ix(j, s[2])]) for s in seqs]
         saved = st.bound
         st.bound = dict(saved)
+        st.qdepth += 1
         try:
             r = self.apply(m.fn, elems, {}, st, spec)
         finally:
             st.bound = saved
+            st.qdepth -= 1
         arr = z3.Lambda([j], r.t)
         return self.new_list(r.ty, arr, z3.simplify(ln), st)
 
@@ -361,6 +373,87 @@ class CallMixin:
 
     def sum_fun(self):
         return z3.Function("seqsum", z3.ArraySort(z3.IntSort(), z3.RealSort()), z3.IntSort(), z3.IntSort(), z3.RealSort())
+
+    # ---- sorting: the result is a permutation (ghost bijection pi / inverse sigma) ordered by the key
+    def sorted_model(self, src, keyfn, st, reverse=False, cmp=None):
+        e, arr, off, n = self.seq_of(src, st)
+        ctx = self.ctx
+        R = ctx.fresh("sorted", z3.ArraySort(z3.IntSort(), sort_of(e)))
+        pi = ctx.fresh("perm", z3.ArraySort(z3.IntSort(), z3.IntSort()))
+        sg = ctx.fresh("perminv", z3.ArraySort(z3.IntSort(), z3.IntSort()))
+        i, j = ctx.fresh("i", z3.IntSort()), ctx.fresh("j", z3.IntSort())
+        src_at = lambda t: arr[_ix(t, off)]
+        st.assume(z3.ForAll([i], z3.Implies(z3.And(0 <= i, i < n),
+                                            z3.And(0 <= pi[i], pi[i] < n, R[i] == src_at(pi[i]), sg[pi[i]] == i)),
+                            patterns=[R[i], pi[i]]))
+        st.assume(z3.ForAll([j], z3.Implies(z3.And(0 <= j, j < n),
+                                            z3.And(0 <= sg[j], sg[j] < n, pi[sg[j]] == j, R[sg[j]] == src_at(j))),
+                            patterns=[sg[j]] + ([src_at(j)] if pattern_ok(arr) and z3.is_int_value(off) and off.as_long() == 0 else [])))
+        if e.kind in ("ref", "list"):
+            st.assume(z3.ForAll([i], z3.Implies(z3.And(0 <= i, i < n), z3.And(R[i] >= 1, R[i] < st.alloc())), patterns=[R[i]]))
+        saved = st.bound
+        st.bound = dict(saved)
+        st.qdepth += 1
+        try:
+            if keyfn is not None:
+                ki = self.apply(keyfn, [SV(e, R[i])], {}, st, True)
+                kj = self.apply(keyfn, [SV(e, R[j])], {}, st, True)
+                ty, x, y = self.num_pair(ki, kj)
+                order = (x >= y) if reverse else (x <= y)
+            elif cmp is not None:
+                c = self.apply(cmp, [SV(e, R[i]), SV(e, R[j])], {}, st, True)
+                order = self.to_int(c) <= 0
+            else:
+                ty, x, y = self.num_pair(SV(e, R[i]), SV(e, R[j]))
+                order = (x >= y) if reverse else (x <= y)
+        finally:
+            st.bound = saved
+            st.qdepth -= 1
+        st.assume(z3.ForAll([i, j], z3.Implies(z3.And(0 <= i, i <= j, j < n), order), patterns=[z3.MultiPattern(R[i], R[j])]))
+        self.ctx.models_used.add("sorted/sort: result is a permutation of the input (ghost bijection) ordered by the key; stability not modelled")
+        st.env["_perm"] = mk_seq(INT, pi, z3.IntVal(0), n)
+        st.env["_perminv"] = mk_seq(INT, sg, z3.IntVal(0), n)
+        return e, R, n
+
+    def _sort_args(self, kwargs):
+        keyfn = kwargs.get("key")
+        cmp = None
+        if isinstance(keyfn, PyVal) and keyfn.kind == "cmp_to_key":
+            cmp, keyfn = keyfn.fn, None
+        rev = kwargs.get("reverse")
+        reverse = False
+        if rev is not None:
+            r = z3.simplify(rev.t)
+            if not (z3.is_true(r) or z3.is_false(r)):
+                raise Unsupported("symbolic reverse flag")
+            reverse = z3.is_true(r)
+        return keyfn, cmp, reverse
+
+    def bi_sorted(self, args, kwargs, st, spec):
+        keyfn, cmp, reverse = self._sort_args(kwargs)
+        if cmp is not None:
+            self.require_total_preorder(cmp, st)
+        e, R, n = self.sorted_model(args[0], keyfn, st, reverse, cmp)
+        return self.new_list(e, R, n, st)
+
+    def lm_sort(self, lst, args, kwargs, st, spec):
+        keyfn, cmp, reverse = self._sort_args(kwargs)
+        if cmp is not None:
+            self.require_total_preorder(cmp, st)
+        e, R, n = self.sorted_model(lst, keyfn, st, reverse, cmp)
+        self.list_set_content(lst, R, None, st)
+        return mk_none()
+
+    def bi_functools_cmp_to_key(self, args, kwargs, st, spec):
+        return PyVal("cmp_to_key", fn=args[0])
+
+    def require_total_preorder(self, cmp, st):
+        """sorted(cmp_to_key(c)) orders its result only if c is a total preorder: the caller's contract must name the lemma"""
+        name = getattr(cmp, "name", None)
+        need = "total_preorder:%s" % name
+        if need not in self.contract.options.get("proved_orders", []):
+            raise Unsupported("sorting with comparator %s needs a proved total-preorder lemma (options.proved_orders)" % name)
+        self.ctx.assumed.add("lemma:" + need)
 
     def bi_dir(self, args, kwargs, st, spec):
         v = args[0]
@@ -509,8 +602,11 @@ class CallMixin:
 
     def lm_reverse(self, lst, args, kwargs, st, spec):
         e, arr1, off1, l1 = self.seq_of(lst, st)
-        j = z3.Int("j!rev")
-        self.list_set_content(lst, z3.Lambda([j], arr1[l1 - 1 - j]), None, st)
+        arr = self.defined_array("rev", arr1.sort(), lambda j: arr1[l1 - 1 - j], st)
+        k = self.ctx.fresh("k", z3.IntSort())
+        if pattern_ok(arr1):
+            st.assume(z3.ForAll([k], arr1[k] == arr[l1 - 1 - k], patterns=[arr1[k]]))
+        self.list_set_content(lst, arr, None, st)
         return mk_none()
 
     def lm_pop(self, lst, args, kwargs, st, spec):
@@ -522,6 +618,50 @@ class CallMixin:
         v = self.list_elem(lst, ln - 1, st)
         st.hset(self.len_key(lst.ty.arg), z3.Store(self.len_arr(st, lst.ty.arg), lst.t, ln - 1))
         return v
+
+    def elem_match(self, a, b, st):
+        """python's `a is b or a == b` used by list.remove / index / in"""
+        if a.ty.kind == "ref" and b.ty.kind == "ref":
+            con = self.reg.method_contract(a.ty.arg, "__eq__")
+            if con is not None and con.pure:
+                r = self.apply_contract(con, [a, b], {}, st, "__eq__", spec=True)
+                return z3.Or(a.t == b.t, self.truthy(r, st))
+            return a.t == b.t
+        return self.equal(a, b, st, True)
+
+    def lm_remove(self, lst, args, kwargs, st, spec):
+        x = args[0]
+        e, arr, off, n = self.seq_of(lst, st)
+        ch = self.ctx.choose(2)
+        j = self.ctx.fresh("j", z3.IntSort())
+        if ch == 0:
+            i = self.ctx.fresh("rm", z3.IntSort())
+            st.assume(z3.And(0 <= i, i < n, self.elem_match(SV(e, arr[i]), x, st)))
+            saved = st.bound
+            st.bound = dict(saved)
+            st.bound["_j"] = mk_int(j)
+            st.qdepth += 1
+            try:
+                m = self.elem_match(SV(e, arr[j]), x, st)
+            finally:
+                st.bound = saved
+                st.qdepth -= 1
+            st.assume(z3.ForAll([j], z3.Implies(z3.And(0 <= j, j < i), z3.Not(m)), patterns=[arr[j]] if pattern_ok(arr) else []))
+            st.env["_removed_index"] = mk_int(i)
+            self.list_delete(lst, i, st)
+            self.ctx.models_used.add("list.remove(x): deletes the first element that is x or == x, ValueError if none")
+            return mk_none()
+        saved = st.bound
+        st.bound = dict(saved)
+        st.bound["_j"] = mk_int(j)
+        st.qdepth += 1
+        try:
+            m = self.elem_match(SV(e, arr[j]), x, st)
+        finally:
+            st.bound = saved
+            st.qdepth -= 1
+        st.assume(z3.ForAll([j], z3.Implies(z3.And(0 <= j, j < n), z3.Not(m)), patterns=[arr[j]] if pattern_ok(arr) else []))
+        raise RaiseSig("ValueError", self.ctx.cur_line)
 
     def lm_insert(self, lst, args, kwargs, st, spec):
         pos, v = args
@@ -559,6 +699,7 @@ class CallMixin:
         ranges = []
         saved = st.bound
         st.bound = dict(saved)
+        st.qdepth += 1
         try:
             if len(names) == 1 and len(rest) == 2:
                 rest = [ast.Tuple(elts=rest, ctx=ast.Load())]
@@ -582,6 +723,7 @@ class CallMixin:
             body = self.truthy(self.ev(lam.body, st, True), st)
         finally:
             st.bound = saved
+            st.qdepth -= 1
         rng = z3.And(*ranges) if ranges else z3.BoolVal(True)
         if is_forall:
             return mk_bool(self.mk_forall(vars_, z3.Implies(rng, body)))
@@ -631,6 +773,7 @@ class CallMixin:
         tmp.entry = st.entry
         tmp.loops = st.loops
         tmp.call_pre = st.call_pre
+        tmp.qdepth = st.qdepth
         return self.ev(node, tmp, True)
 
     def spec_old(self, node, st):
@@ -779,6 +922,8 @@ class CallMixin:
             return z3.ArraySort(z3.IntSort(), z3.ArraySort(z3.IntSort(), s))
         if key.endswith("?"):
             return z3.ArraySort(z3.IntSort(), z3.BoolSort())
+        if key.endswith(".$dyn"):
+            return z3.ArraySort(z3.IntSort(), z3.ArraySort(z3.IntSort(), z3.RealSort()))
         c, f = key.split(".")
         if f.startswith("has_"):
             return z3.ArraySort(z3.IntSort(), z3.BoolSort())
